@@ -8,14 +8,21 @@ package client
 //   per-source streams and no cross-talk (NoCross), stream timeout -> entry removed, stream closed, next datagram opens
 //   a NEW stream (QuiesceInv), session closed by the far end -> exactly one new session for the next datagram, nothing
 //   of the old one remains (RenewInv, QuiesceInv).
-// The model's DEVIATION StaleDelete (deletion by key) needs a goroutine of RouteUDP to be held between its loop and the
-// table lock; without a hook there that is a matter of luck: TestVerifX02UDPStaleDelete tries, and only counts.
+// Defect D22 (RelayUDP.tla, Dev DeleteByKey; repaired in /repo 5369de6): a reader goroutine that has left its loop but
+// not yet taken the table lock must not remove the entry of a NEWER stream of the same address. The window lies
+// exactly where RouteUDP calls log.Tracef("copying stream to proxy client: ..."): a logrus hook parks the reader
+// there (hooks fire outside the logger's lock), the harness lets the loop fail its Write on the old stream and open a
+// new one for the same address, releases the reader and sends again. Evidence-based verdict relay-udp-orphan-stream:
+// a stream of that address that is open and whose reader still relays replies, while the next datagram of the address
+// opens ANOTHER stream (so the table no longer holds the first). TestVerifX02UDPStaleDelete looks for the same
+// without the hook (thorough tier).
 
 import (
 	"fmt"
 	"io"
 	"net"
 	"runtime"
+	"strings"
 	"sync"
 	"testing"
 	"time"
@@ -145,9 +152,152 @@ func (s *x02uSrc) received() []string {
 
 const x02uLimit = 40 * time.Second
 
+// x02uHook parks the next goroutine that logs RouteUDP's "copying stream to proxy client" (a reader leaving its loop)
+type x02uHook struct {
+	mu      sync.Mutex
+	armed   bool
+	parked  chan struct{}
+	release chan struct{}
+}
+
+func (h *x02uHook) Levels() []log.Level { return []log.Level{log.TraceLevel} }
+func (h *x02uHook) Fire(e *log.Entry) error {
+	if !strings.HasPrefix(e.Message, "copying stream to proxy client") {
+		return nil
+	}
+	h.mu.Lock()
+	armed, p, r := h.armed, h.parked, h.release
+	h.armed = false
+	h.mu.Unlock()
+	if armed {
+		close(p)
+		<-r
+	}
+	return nil
+}
+
+func (h *x02uHook) arm() (parked, release chan struct{}) {
+	h.mu.Lock()
+	defer h.mu.Unlock()
+	h.armed, h.parked, h.release = true, make(chan struct{}), make(chan struct{})
+	return h.parked, h.release
+}
+
+var x02uTheHook = &x02uHook{}
+var x02uHookOnce sync.Once
+
+func x02uInstallHook() {
+	x02uHookOnce.Do(func() { log.AddHook(x02uTheHook) })
+	log.SetLevel(log.TraceLevel) // the reader's Tracef is the schedule point; output is discarded
+}
+
+// streams at the far end that carry datagrams of source src, in the order they were opened
+func (f *x02uFar) streamsOf(src int) []*x02uStream {
+	f.mu.Lock()
+	defer f.mu.Unlock()
+	var out []*x02uStream
+	for _, s := range f.streams {
+		if len(s.got) > 0 {
+			var x, n int
+			fmt.Sscanf(string(s.got[0]), "x02-src%d-dgram%d", &x, &n)
+			if x == src {
+				out = append(out, s)
+			}
+		}
+	}
+	return out
+}
+
+// x02uWindow: the D22 window, forced. Returns false if the scenario could not be set up (drift).
+func x02uWindow(t *testing.T, res *kit.Result, round int) bool {
+	far := &x02uFar{}
+	local, err := net.ListenUDP("udp", &net.UDPAddr{IP: net.IPv4(127, 0, 0, 1)})
+	if err != nil {
+		t.Fatal(err)
+	}
+	go RouteUDP(func() (*net.UDPConn, error) { return local, nil }, 30*time.Second, false, far.newSession)
+	srcID := 70 + round
+	src := x02uNewSrc(t, local.LocalAddr().(*net.UDPAddr))
+	defer src.c.Close()
+	defer func() { // the readers of this round end with their sessions
+		far.mu.Lock()
+		for _, s := range far.sessions {
+			s.Close()
+		}
+		far.mu.Unlock()
+	}()
+	n := 0
+	send := func() { n++; src.c.Write(x02uDgram(srcID, n)) }
+	drift := func(format string, a ...any) bool {
+		res.Stat("diverged", 1)
+		res.Note("UDP window round %d: "+format, append([]any{round}, a...)...)
+		return false
+	}
+	send()
+	if !x02uWait(x02uLimit, func() bool { return len(far.streamsOf(srcID)) == 1 }) {
+		return drift("the first datagram did not open a stream")
+	}
+	s1 := far.streamsOf(srcID)[0]
+	parked, release := x02uTheHook.arm()
+	s1.conn.Close() // the far end closes the stream: the client's reader leaves its loop - and is parked before the lock
+	select {
+	case <-parked:
+	case <-time.After(x02uLimit):
+		return drift("the reader of the closed stream never reached its Tracef")
+	}
+	// the loop's Write on the old stream fails (that datagram is lost), the next datagram opens stream 2
+	if !x02uWait(x02uLimit, func() bool { send(); time.Sleep(5 * time.Millisecond); return len(far.streamsOf(srcID)) >= 2 }) {
+		close(release)
+		return drift("no second stream was opened after the first had been closed")
+	}
+	before := runtime.NumGoroutine()
+	close(release) // the old reader now cleans up: it must leave the entry of stream 2 alone
+	x02uWait(5*time.Second, func() bool { return runtime.NumGoroutine() < before })
+	time.Sleep(10 * time.Millisecond)
+	s2 := far.streamsOf(srcID)[1]
+	far.mu.Lock()
+	got2 := len(s2.got)
+	far.mu.Unlock()
+	for k := 0; k < 4; k++ {
+		send()
+		time.Sleep(5 * time.Millisecond)
+	}
+	x02uWait(3*time.Second, func() bool {
+		far.mu.Lock()
+		defer far.mu.Unlock()
+		return len(s2.got) > got2 || len(far.streams) > 2
+	})
+	time.Sleep(20 * time.Millisecond)
+	ss := far.streamsOf(srcID)
+	far.mu.Lock()
+	s2closed, grew := s2.closed, len(s2.got) > got2
+	far.mu.Unlock()
+	res.Count(fmt.Sprintf("udp-window-%d", round), true)
+	if len(ss) >= 3 && !s2closed {
+		// is the orphan's reader alive? a reply on stream 2 still reaches the source
+		s2.conn.Write([]byte("reply-on-stream-2"))
+		alive := x02uWait(3*time.Second, func() bool {
+			for _, d := range src.received() {
+				if d == "reply-on-stream-2" {
+					return true
+				}
+			}
+			return false
+		})
+		res.Violate("relay-udp-orphan-stream", fmt.Sprintf("RouteUDP: the far end closed stream 1 of an address; while that stream's reader goroutine was between its loop and the table lock the loop "+
+			"failed its Write on stream 1 and opened stream 2 for the address; after the reader finished, the next datagrams of the address opened stream %d although stream 2 is open "+
+			"(reader goroutine alive, reply relayed: %v) - stream 2 is no longer in the table, the table holds another stream for the address", len(ss), alive),
+			map[string]any{"scenario": "udp-window", "streams_of_address": len(ss)})
+		return true
+	}
+	if !grew {
+		return drift("after the old reader finished, the datagrams of the address arrived neither on stream 2 nor on a new stream")
+	}
+	return true
+}
+
 func TestVerifX02UDP(t *testing.T) {
 	log.SetOutput(io.Discard)
-	log.SetLevel(log.PanicLevel)
 	res := kit.NewResult()
 	defer func() { res.Save(true) }()
 	probe, err := net.ListenUDP("udp", &net.UDPAddr{IP: net.IPv4(127, 0, 0, 1)})
@@ -157,6 +307,10 @@ func TestVerifX02UDP(t *testing.T) {
 		return
 	}
 	probe.Close()
+	x02uInstallHook()
+	for round := 0; round < 3; round++ {
+		x02uWindow(t, res, round)
+	}
 	for _, single := range []bool{false, true} {
 		far := &x02uFar{single: single}
 		local, err := net.ListenUDP("udp", &net.UDPAddr{IP: net.IPv4(127, 0, 0, 1)})
@@ -301,9 +455,10 @@ func TestVerifX02UDP(t *testing.T) {
 		newStreams := len(ss3) - len(ss2)
 		res.Stat("udp_streams_after_session_close", int64(newStreams))
 		if newStreams > 1 {
-			// more than one stream for one source within 25 ms: the model's StaleDelete has happened (not a verdict of this check)
+			// more than one stream for one source within 25 ms: deletion by key (Dev DeleteByKey of RelayUDP.tla)
 			res.Stat("staledelete_seen", 1)
-			res.Note("UDP %s: %d streams were opened for ONE source after the session closed: StaleDelete (RelayUDP.tla) observed", mode, newStreams)
+			res.Violate("relay-udp-orphan-stream", fmt.Sprintf("UDP %s: %d streams were opened for ONE address within 25 ms after its session closed: a stream lost its table entry to the clean-up of an older one (defect D22)", mode, newStreams),
+				map[string]any{"scenario": "udp-session-close"})
 		}
 		res.Count("udp-session-close-"+mode, true)
 
@@ -367,6 +522,8 @@ func TestVerifX02UDPStaleDelete(t *testing.T) {
 		res.Stat(fmt.Sprintf("streams_reopened_%d", opened), 1)
 		if opened > 1 {
 			res.Stat("staledelete_seen", 1)
+			res.Violate("relay-udp-orphan-stream", fmt.Sprintf("RouteUDP: one stream of an address was closed by the far end and %d streams were opened for the address by the burst that followed "+
+				"(round %d of %d, no hook): a stream that lost its table entry (defect D22)", opened, r, rounds), map[string]any{"scenario": "udp-probe"})
 		}
 		src.c.Close()
 	}
